@@ -447,7 +447,7 @@ func c11Cases(l *evlog.Log) []c11Case {
 		}
 	}
 	hellos := []string{"small", "pad512", "mid", "pq"}
-	for i := 0; i < l.Pick(5000, 40000); i++ {
+	for i := 0; i < l.Pick(5000, 160000); i++ {
 		list := specgen.GenList(rng, 14)
 		c := c11Case{Name: fmt.Sprintf("gen/%05d", i), Hello: hellos[rng.IntN(len(hellos))], List: list, Suppress: specgen.GenSuppress(rng, list),
 			Randomize: rng.IntN(2) == 0, SCID: []int{0, 3, 8, 20}[rng.IntN(4)], IDsFirst: rng.IntN(2) == 0, Measured: rng.IntN(3) == 0, Dials: dials}
@@ -771,7 +771,7 @@ func TestVerifC11Distribution(t *testing.T) {
 		idx++
 		// ---- dials with RandomizeTransportParameters, one spec value for all dials (plus one suppressed parameter)
 		if l.Mine(idx) {
-			total := l.Pick(2400, 12000)
+			total := l.Pick(2400, 36000)
 			cs := c11Case{Name: fmt.Sprintf("distribution/dial/n=%d", n), Hello: "small", List: append(slices.Clone(lists[n]), specgen.Param{K: "dgram", V: 1200}), Suppress: []uint64{0x20}, Randomize: true, SCID: 3, Dials: total}
 			if c := l.Begin("C11/"+cs.Name, cs); c != nil {
 				synctest.Test(t, func(t *testing.T) {
@@ -813,7 +813,7 @@ func TestVerifC11Distribution(t *testing.T) {
 		// listing only v1 comes back, the dial is re-created; the ClientHello of the re-created attempt must
 		// be randomised like any other
 		if l.Mine(idx) && n <= 3 {
-			total := l.Pick(600, 6000)
+			total := l.Pick(600, 18000)
 			cs := c11Case{Name: fmt.Sprintf("distribution/dial-after-vn/n=%d", n), Hello: "small", List: append(slices.Clone(lists[n]), specgen.Param{K: "dgram", V: 1200}), Suppress: []uint64{0x20}, Randomize: true, SCID: 3, Dials: total}
 			if c := l.Begin("C11/"+cs.Name, cs); c != nil {
 				synctest.Test(t, func(t *testing.T) {
